@@ -22,6 +22,7 @@ def opCli : OpFn := fun view inp out => do
   let mut files := files0
   let mut prePems : List PemJ ← initial.getObjValAs? (List PemJ) "pems"
   let mut preRanks := ranksOf initial "ranks"
+  let mut prevHashes : Option Json := (initial.getObjVal? "hashes").toOption
   let mut corr := true
   let mut corrClause := ""
   let mut fails : List String := []
@@ -46,7 +47,8 @@ def opCli : OpFn := fun view inp out => do
       let dryPlan ← so.getObjValAs? String "dryPlanErr"
       let procOpen ← so.getObjValAs? String "openErr"
       let procPlan ← so.getObjValAs? String "planErr"
-      let o : RunObs ← fromJson? so
+      let o0 : RunObs ← fromJson? so
+      let o : RunObs := { o0 with hashesPre := prevHashes, hashesPost := (so.getObjVal? "hashes").toOption }
       let untouched := o.writes.isEmpty && o.nonPemUnchanged && samePems prePems postPems
       match Cli.strategyOf Facts.signFlags flags with
       | none => corr := false; corrClause := s!"step {i}: the model cannot read the flags {flags}"
@@ -108,6 +110,7 @@ def opCli : OpFn := fun view inp out => do
     else prev := none
     prePems := postPems
     preRanks := ranksOf so "ranks"
+    prevHashes := (so.getObjVal? "hashes").toOption
     i := i + 1
   let seen := fails.find? (viewAccepts view)
   pure { corr := corr, spec := seen.isNone,
